@@ -312,4 +312,40 @@ theorem close_spec (a : Agent) (hc : a.closed = false) :
 example : (({} : Agent).run [.start [1] 10, .start [2] 20, .collect 15, .stop [2], .close]).2.map (fun x => x.2.2.length)
     = [0, 0, 1, 1, 0] := by decide
 
+/-- two `Collect`s report, together, exactly what one `Collect` at the later time reports (as a multiset: the events
+    of the first call come first), and leave the same table: ticks of a collector may be split, merged or - being
+    single critical sections (C14) - overlap, without any transaction being reported twice or not at all -/
+theorem collect_twice (a : Agent) (t1 t2 : Nat) (h : t1 ≤ t2) :
+    ((a.collect t1).1.collect t2).1 = (a.collect t2).1 ∧
+    List.Perm ((a.collect t1).2.2 ++ ((a.collect t1).1.collect t2).2.2) (a.collect t2).2.2 := by
+  unfold Agent.collect
+  by_cases hc : a.closed = true
+  · simp [hc]
+  · simp only [hc, Bool.false_eq_true, if_false]
+    constructor
+    · -- the table: keeping ≥ t1 and then ≥ t2 is keeping ≥ t2
+      congr 1
+      rw [List.filter_filter]
+      apply List.filter_congr
+      intro p _
+      by_cases h2 : p.2 < t2 <;> by_cases h1 : p.2 < t1 <;> simp [h1, h2] <;> omega
+    · rw [← List.map_append]
+      apply List.Perm.map
+      -- gone(t2) splits into gone(t1) and the part of the rest that is < t2
+      have hsplit := List.filter_append_perm (fun p : TID × Nat => decide (p.2 < t1)) (a.table.filter (fun p => decide (p.2 < t2)))
+      have e1 : (a.table.filter (fun p => decide (p.2 < t2))).filter (fun p => decide (p.2 < t1)) =
+          a.table.filter (fun p => decide (p.2 < t1)) := by
+        rw [List.filter_filter]
+        apply List.filter_congr
+        intro p _
+        by_cases h1 : p.2 < t1 <;> by_cases h2 : p.2 < t2 <;> simp [h1, h2]; omega
+      have e2 : (a.table.filter (fun p => decide (p.2 < t2))).filter (fun p => !decide (p.2 < t1)) =
+          (a.table.filter (fun p => decide ¬ p.2 < t1)).filter (fun p => decide (p.2 < t2)) := by
+        rw [List.filter_filter, List.filter_filter]
+        apply List.filter_congr
+        intro p _
+        by_cases h1 : p.2 < t1 <;> by_cases h2 : p.2 < t2 <;> simp [h1, h2]
+      rw [e1, e2] at hsplit
+      exact hsplit
+
 end Stun.C13
